@@ -137,6 +137,23 @@ fn run_case_n(st: &mut Stats, order: u64, what: &str, prog: &Program, sigs: &[Si
         }
     }
     st.outcome(&obs.items.iter().map(|i| std::mem::discriminant(i)).collect::<Vec<_>>());
+    // the iterator is not fused: a caller that carries on after an error item must not be
+    // met by a panic either (a next() that does not return is not judged here: the rest of the
+    // program may simply not terminate)
+    if let (Ok(tc), true) = (&tc, obs.items.iter().any(|i| matches!(i, ObsItem::Runtime(_) | ObsItem::DriverErr(_)))) {
+        let mut o2 = opts.clone();
+        o2.continue_after_error = true;
+        o2.max_next = max_items + 6;
+        let again = run_loaded(tc, sigs, true, script, &o2);
+        st.steps += again.items.len() as u64;
+        st.witness("caller_carries_on_after_an_error_item");
+        if let Some(ObsItem::Panic(s)) = again.items.iter().find(|i| matches!(i, ObsItem::Panic(_))) {
+            return fail(st, format!("next() panics after an error item {}", panic_site(s)), format!("the caller carried on after an error item and next() panicked: {s}"));
+        }
+        if let Some(s) = &again.vars_panic {
+            return fail(st, "vars() panics".into(), format!("vars() panicked after an error item: {s}"));
+        }
+    }
 }
 
 pub fn run(tier: Tier, seed: u64) -> i32 {
@@ -346,7 +363,7 @@ pub fn run(tier: Tier, seed: u64) -> i32 {
     }
     total.sample(|| json!({"T1_example": "A O D D_out / ( p / q ) ( p / q ) ( p / q ) ( p / q ) with p = MIN, q = -1 on 63-bit signals", "oracle": "never panics (construction, next, vars, static iteration); error item exactly where the reference predicts division by zero, unassigned variable, empty random range, unimplemented function, Z/X read; rows otherwise"}));
     let mut required: Vec<&'static str> = POSITIONS.to_vec();
-    required.extend(["division_or_remainder_by_zero", "variable_never_assigned_on_the_executed_path", "read_of_Z_or_X", "empty_random_range", "function_not_implemented", "signal_width_63_or_64", "driver_error_at_a_call", "layout_omits_a_read_output", "driver_returns_Z_or_X", "bits_64", "static_iteration_exercised", "accepted_pair_iterated", "history_of_rows"]);
+    required.extend(["division_or_remainder_by_zero", "variable_never_assigned_on_the_executed_path", "read_of_Z_or_X", "empty_random_range", "function_not_implemented", "signal_width_63_or_64", "driver_error_at_a_call", "layout_omits_a_read_output", "driver_returns_Z_or_X", "bits_64", "static_iteration_exercised", "accepted_pair_iterated", "history_of_rows", "caller_carries_on_after_an_error_item"]);
     let meta = CheckMeta {
         id: "C10",
         tier,
